@@ -31,6 +31,7 @@ def run(ctx: Ctx):
     ctx.attempt(move_rejections, ctx)
     ctx.attempt(partition, ctx)
     ctx.attempt(split, ctx)
+    ctx.attempt(link_time, ctx)
     ctx.attempt(leaving, ctx)
     ctx.attempt(arrival_enterable, ctx)
     # the vehicle-update phase threads its state: what one vehicle's update produced is what the next vehicle is stepped on, and a failed
@@ -281,6 +282,31 @@ def partition(ctx: Ctx, progress: bool = True):
                       why_bad=d[:260], construct="_traverse:traversed")
     ctx.require(seen == {"not-traversed", "traversed"}, f"_traverse: cases seen {sorted(seen)}")
     rules.rule_fold_threading(ctx, "D2", tr, 1)
+
+
+def link_time(ctx: Ctx):
+    """'covers no more road than the link speeds allow': the time a link takes -- the quantity every split / whole-link decision above
+    compares with the time left -- is the link's OWN length over its OWN speed and nothing else. A time that also reads the end points,
+    the geometry, or any other quantity is no longer length / speed, so the distance booked per second is no longer bounded by the speed."""
+    fn = ctx.repo.func(LT, "LinkTraversal.travel_time_seconds")
+    me = fn.params[0]
+    n = 0
+    for p in flow.paths(fn.node):
+        if p.kind != "return" or p.value is None:
+            continue
+        n += 1
+        v = p.value
+        reads = {a.attr for a in ast.walk(v) if isinstance(a, ast.Attribute) and isinstance(a.value, ast.Name) and a.value.id == me}
+        calls = {flow.dump(c.func) for c in ast.walk(v) if isinstance(c, ast.Call)}
+        ratio = any(isinstance(b, ast.BinOp) and isinstance(b.op, ast.Div) and "distance_km" in flow.dump(b.left) and "speed_kmph" in flow.dump(b.right) and "distance_km" not in flow.dump(b.right)
+                    and "speed_kmph" not in flow.dump(b.left) for b in ast.walk(v))
+        extra_calls = {c for c in calls if c.split(".")[-1] not in ("hours_to_seconds", "int", "float")}
+        ok = reads == {"distance_km", "speed_kmph"} and ratio and not extra_calls
+        ctx.check(ok, "D3", "DU.link-time", "LinkTraversal.travel_time_seconds is the link's own distance_km / speed_kmph (in whole seconds) and reads nothing else", fn, p.end,
+                  why_bad=f"computed as `{flow.dump(v)[:160]}` (reads {sorted(reads)}, calls {sorted(calls)}): the time charged for a link is no longer its length over its speed, so the "
+                          f"road booked in a step is not bounded by the link speeds",
+                  construct="LinkTraversal.travel_time_seconds:formula")
+    ctx.require(n >= 1, "LinkTraversal.travel_time_seconds: no return path")
 
 
 def split(ctx: Ctx):
